@@ -341,6 +341,8 @@ RcvTemplates ==
   \cup {<<"collect", <<"rep", <<"recover", <<"theni", <<"recover", J("a"), i>>, J("!")>>, o>>, 0, Inf>>, "vec">> :
            i \in RInner, o \in {<<"retry", <<"any">>, <<"end">>>>, <<"skipuntil", <<"any">>, J("!")>>}}
   \cup {<<"or", <<"then", J("a"), <<"then", J("b"), J("!")>>>>, <<"recover", J("b"), o>>>> : o \in ROuter}
+  \cup {<<"choicev", << <<"theni", <<"recover", J("a"), i>>, J("!")>>, RestCap >> >> : i \in RInner}
+  \cup {<<"choicev", << J("!"), <<"theni", <<"recover", J("a"), i>>, J("!")>>, <<"then", J("b"), RestCap>> >> >> : i \in RInner}
 (* nested_delimiters (C08): recover_with(via_parser(nested_delimiters(start, end, others, fallback))) -- the  *)
 (* fallback parser as recovery.rs:249-274 builds it: block = (many_block | any().and_is(none_of(skip))).repeated(), *)
 (* many_block = block delimited by any of the pairs; the whole delimited by (start, end); fallback(span)           *)
@@ -393,6 +395,13 @@ RcvETemplates ==
   \cup {<<"collect", <<"rep", <<"recover", a, s>>, 0, Inf>>, "vec">> : a \in EmitA, s \in {<<"retry", <<"any">>, J("!")>>, <<"skipuntil", <<"any">>, J("!")>>}}
   \cup {<<"or", <<"then", <<"recover", a, s>>, J("!")>>, RestCap>> : a \in EmitA, s \in EmitStrats}
   \cup {<<"andis", <<"recover", a, s>>, RestCap>> : a \in EmitA, s \in EmitStrats}
+  \* slice / Vec choices (they rewind before each alternative, not after a failed one): an alternative that recovered or
+  \* emitted and THEN failed leaves nothing behind, wherever it stands among the alternatives
+  \cup {<<"choicev", << <<"then", <<"recover", a, s>>, J("!")>>, RestCap >> >> : a \in EmitA, s \in EmitStrats}
+  \cup {<<"choicev", << J("!"), <<"then", <<"recover", a, s>>, J("!")>>, RestCap >> >> : a \in EmitA, s \in {<<"via", <<"to", <<"any">>, "r">>>>, <<"skipuntil", <<"any">>, J("!")>>}}
+  \cup {<<"choice", << <<"then", a, J("!")>>, RestCap >> >> : a \in EmitA}
+  \* separated lists whose last item attempt emits and then fails (given back: after a trailing separator too)
+  \cup {<<"then", <<"collect", <<"sep", a, J("!"), 0, Inf, l, t>>, "vec">>, RestCap>> : a \in EmitA, l \in BOOLEAN, t \in BOOLEAN}
 (* decorations around parsers that succeed while leaving a pending error behind, followed by  *)
 (* a later failure; an earlier alternative that failed further ahead (C17)                     *)
 LInner == {<<"then", J("a"), <<"ornot", J("b")>>>>, <<"then", J("a"), <<"or", J("b"), J("c")>>>>,
